@@ -24,7 +24,11 @@
 (*                           dropped, added or duplicated transaction      *)
 (*                  "height" header height # parent height + 1             *)
 (*   tree.tamper[b] b may also be delivered as variant "t": the genuine    *)
-(*                  header (same block hash) with a different body         *)
+(*                  header (same block hash) with a different body, or     *)
+(*                  with the genuine body and a block signature that does  *)
+(*                  not verify (the signature is not covered by the hash); *)
+(*                  the harness crosses the latter with the receiver's     *)
+(*                  pool holding all / some / none of the transactions     *)
 (*                                                                         *)
 (* Modelled as the code does it (not as it should be): bodies are stored   *)
 (* by hash before execution and never replaced while the header exists;    *)
